@@ -966,7 +966,7 @@ func hdrToHTTP(h Hdr) http.Header {
 	return out
 }
 
-// locGlue: url.Parse + ResolveReference of a Location-like value against the request URL.
+// locGlue: url.Parse of a Location-like value.
 var qClassFields = []string{"Accept", "Accept-Charset", "Accept-Language", "Accept-Encoding", "Te", "Content-Encoding"}
 
 func locGlue(reqURL *url.URL, loc string) string {
@@ -974,6 +974,8 @@ func locGlue(reqURL *url.URL, loc string) string {
 	if err != nil {
 		return "bad\t-\t-\t-\t-\t-\t-\t-"
 	}
-	r := reqURL.ResolveReference(lu)
-	return "ok\t" + hx(r.Scheme) + "\t" + hx(r.Host) + "\t" + urlGlue(r)
+	// the components of the reference as url.Parse delivers them, UNRESOLVED: resolving it against the request
+	// URL (RFC 3986 §5.2.2) is the model's and the specification's business, like every other URL normalisation
+	_ = reqURL
+	return "ok\t" + hx(lu.Scheme) + "\t" + hx(lu.Host) + "\t" + urlGlue(lu)
 }
